@@ -27,7 +27,7 @@ func zzKey() *PrivateKey {
 	return sk
 }
 
-//zz: prop=C01 tier=quick backend=bv use=pkeuf,keccakuf timeout=300
+//zz: prop=C01 also=C03 tier=quick backend=bv use=pkeuf,keccakuf timeout=300
 func ZZ_C01_mlkem768_decaps_is_FO_transform() {
 	sk := zzKey()
 	ct := make([]byte, CiphertextSize)
